@@ -224,11 +224,22 @@ def r2(F, R):
             R.check(ok, "release-iff-completion", site, "guarded by `a completion was received`",
                     "the slot is released without a completion having been received (or on the wrong edge)")
             R.check(not ex.site_reaches(site, site, stop=[s_get]), "release-once-per-turn", site, "", "slots can be released more than once per loop turn")
+    # every completion that leaves the in-flight set gives its slot back: the set is consumed at ONE site (the awaited `next()` the release is
+    # guarded by) — a second consumer (`while let Some(..) = run_scenarios.next().now_or_never() {}`, a `clear()`) drops completions whose slots
+    # are never returned: the runner keeps fewer scenarios in flight than the limit although more are ready
+    inflight = A.canon_place(ex, {"l": op_local(pushes[0][1]["args"][0]), "p": ["*"]})["l"] if op_local(pushes[0][1]["args"][0]) is not None else None
+    consumers = []
+    for s_, t in ex.calls(lambda t: callee_is(t, r"StreamExt::(next|select_next_some|into_future|poll_next_unpin|collect|for_each|count)$|Stream::poll_next$|FuturesUnordered::<.*>::(clear|into_iter|iter_mut)$")):
+        l0 = op_local(t["args"][0]) if t["args"] else None
+        if l0 is not None and (A.canon_place(ex, {"l": l0, "p": ["*"]})["l"] == inflight or inflight in A.slice_back(ex, [t["args"][0]]).locals):
+            consumers.append((s_, t))
+    R.check(len(consumers) == 1, "completions-consumed-at-one-site", consumers[1][0] if len(consumers) > 1 else ex, "the in-flight set is consumed only by the awaited next()",
+            f"the in-flight set is consumed at {len(consumers)} sites: completions taken at the extra site(s) never give their slot back")
     # GET receives the current value of S
     cases = slot_limit_cases(F, ex, t_get["args"][1], S)
     R.check(cases.get("Continue") == "payload", "get-receives-slots", s_get, "GET(slots.continue_value()…)",
             "GET is not called with the current slot value")
-    R.floor(8)
+    R.floor(9)
 
 
 def r3(F, R):
